@@ -172,6 +172,25 @@ def run(chk, drv):
             all_files = recs + battles
             ref, _ = run_digests(all_files)
             got, meta = run_digests(all_files, unpacked=unpacked)
+            # the same copy reached through a symbolic link (link farms, --target directories): one file per game and the recordings
+            linked = os.path.join(scratch, 'linked-site')
+            if not os.path.lexists(linked):
+                os.symlink(unpacked, linked)
+            subset = recs + [b for b in battles if any(('-%s-' % g) in os.path.basename(b) for g in ('wot', 'wowp'))][:2] + battles[:3]
+            got_l, meta_l = run_digests(subset, unpacked=linked)
+            if got_l is not None and ref is not None:
+                by_file = {r['file']: r for r in ref}
+                for g_ in got_l:
+                    r = by_file.get(g_['file'])
+                    chk.dist('replays:through-symlink')
+                    if r is not None and r.get('digest') != g_.get('digest'):
+                        chk.report('%s gives a different result from an installed copy reached through a symbolic link: checkout %s, installed %s' % (
+                            os.path.basename(g_['file']), json.dumps({k: r.get(k) for k in ('hidden', 'error', 'exception')}),
+                            json.dumps({k: g_.get(k) for k in ('hidden', 'error', 'exception')})),
+                            {'kind': 'installed-replay-symlink', 'file': os.path.basename(g_['file']), 'checkout': r, 'installed': g_})
+            elif ref is not None:
+                chk.report('replays cannot be parsed from an installed copy reached through a symbolic link: %s' % json.dumps(meta_l)[:300],
+                           {'kind': 'installed-symlink', 'meta': meta_l})
         finally:
             for p in battles:
                 os.unlink(p)
